@@ -26,6 +26,10 @@ func runC01(c *Ctx) {
 	r01_6(c, "R01.6")
 	r01_7(c, "R01.7")
 	r01_8(c, "R01.8")
+	r01_9(c, "R01.9")
+	// stale entries are deleted unless they lie below an already removed
+	// directory: the suppression prefix must be separator-terminated (shared with C05)
+	r05_4(c, "R01.10")
 }
 
 // statSources: required provenance of each Stat field in the constructor.
@@ -136,6 +140,28 @@ func r01_1(c *Ctx, rule string) {
 		}
 		c.ObUnreachable(rule, "fsutil.mkstat/readlink-only-symlinks", mk, as, func(in ssa.Instruction) bool { return in == ssa.Instruction(call) }, "os.Readlink", "the entry is not a symlink")
 		c.ObErrChecked(rule+"/checked", call)
+		// the readlink result is final: nothing overwrites Linkname afterwards
+		for _, s := range fieldStoresIn(mk, "types.Stat.Linkname") {
+			if !c.DerivesFrom(s.Val, func(v ssa.Value) bool { return v == call.Value() }, 3) {
+				continue
+			}
+			ex := c.explorer(mk)
+			ex.From = s
+			ex.Target = func(in ssa.Instruction, st *eng.State) bool {
+				if c.P.IsCallTo(in, "fsutil.setUnixOpt") {
+					return true
+				}
+				if s2, ok := in.(*ssa.Store); ok && s2 != s {
+					if fa, isFA := s2.Addr.(*ssa.FieldAddr); isFA && eng.FieldOwnerName(fa.X.Type(), fa.Field) == "types.Stat.Linkname" {
+						return true
+					}
+				}
+				return false
+			}
+			ex.StopAtTarget = true
+			h := ex.Run()
+			c.R.Check(len(h) == 0 && !ex.Exhausted, rule, "fsutil.mkstat/readlink-is-final", c.pos(s), "a symlink's Linkname is its readlink result: nothing overwrites it afterwards", "after a symlink's Linkname was set from os.Readlink it can be overwritten (inode bookkeeping running afterwards): a hard-linked symlink is reported with the first name of its inode as its target")
+		}
 	}
 	// helpers are called, loadXattr is checked
 	for _, n := range []string{"fsutil.setUnixOpt", "fsutil.loadXattr"} {
@@ -649,4 +675,70 @@ func r01_8(c *Ctx, rule string) {
 		}
 		c.R.Check(good >= 1, rule, c.name(hc)+"/file-close-checked", c.P.Pos(hc.Pos()), "the close of the created file is checked on the success path", "no checked Close of the newly created file: a failed close (ENOSPC, EIO) is reported as success")
 	}
+}
+
+// R01.9: the permission retry of the lazy file writer restores the mode.
+func r01_9(c *Ctx, rule string) {
+	c.R.Rule(rule, "lazyFileWriter: the mode widened to open a read-only file for writing is recorded from the file itself and restored by Close after a successful close of the file")
+	w := c.Fn(rule, "fsutil.(*lazyFileWriter).Write")
+	cl := c.Fn(rule, "fsutil.(*lazyFileWriter).Close")
+	if w == nil || cl == nil {
+		return
+	}
+	// recorded before the widening chmod, from the stat of the destination
+	var chm ssa.CallInstruction
+	for _, call := range c.P.CallsTo(w, "os.Chmod") {
+		chm = call
+	}
+	if chm == nil {
+		c.R.OK(rule, c.name(w)+"/no-retry", c.P.Pos(w.Pos()), "no permission retry: nothing to restore")
+		return
+	}
+	isRec := func(in ssa.Instruction) bool {
+		s, ok := in.(*ssa.Store)
+		if !ok {
+			return false
+		}
+		fa, ok := s.Addr.(*ssa.FieldAddr)
+		return ok && eng.FieldOwnerName(fa.X.Type(), fa.Field) == "fsutil.lazyFileWriter.fileMode"
+	}
+	c.ObPrecedes(rule, c.name(w)+"/mode-recorded-before-widening", w, nil, isRec, func(in ssa.Instruction) bool { return in == ssa.Instruction(chm) }, "recording the original mode", "widening the mode")
+	for _, s := range fieldStoresIn(w, "fsutil.lazyFileWriter.fileMode") {
+		ok := c.DerivesFrom(s.Val, func(v ssa.Value) bool { return c.isCallValueTo(v, "(io/fs.FileInfo).Mode") }, 6)
+		c.R.Check(ok, rule, c.name(w)+"/mode-from-file", c.pos(s), "the recorded mode is the file's own", "the mode recorded for restoring is not the file's own mode")
+	}
+	// Close restores it
+	x := c.explorer(cl)
+	as := map[string]bool{}
+	eng.Instrs(cl, func(in ssa.Instruction) {
+		bo, ok := in.(*ssa.BinOp)
+		if !ok || (bo.Op != token.EQL && bo.Op != token.NEQ) {
+			return
+		}
+		if k, isC := bo.Y.(*ssa.Const); isC && k.IsNil() && isFieldLoad(bo.X, "fsutil.lazyFileWriter.fileMode") {
+			as[x.KeyAtEntry(bo)] = bo.Op == token.NEQ
+		}
+	})
+	for _, call := range c.P.CallsTo(cl, "(*os.File).Close") {
+		k, _, _ := c.errValueOf(call)
+		as["("+k+"==nil)"] = true
+	}
+	c.ObSuccessNeeds(rule, c.name(cl)+"/mode-restored", cl, nil, as, c.callPred("os.Chmod"), "restoring the recorded mode (a mode was recorded, the file closed cleanly)")
+	for _, call := range c.P.CallsTo(cl, "os.Chmod") {
+		a := call.Common().Args
+		ok := isFieldLoad(a[0], "fsutil.lazyFileWriter.dest") && c.DerivesFrom(a[1], func(v ssa.Value) bool { return isFieldLoad(v, "fsutil.lazyFileWriter.fileMode") }, 3)
+		c.R.Check(ok, rule, c.siteName(call)+"/args", c.pos(call), "Chmod(dest, recorded mode)", "Close does not restore the recorded mode on the destination")
+	}
+	// the result of Close reports a failed close or a failed restore
+	bad := 0
+	ex := c.explorer(cl)
+	for _, call := range c.P.CallsTo(cl, "(*os.File).Close") {
+		k, _, _ := c.errValueOf(call)
+		ex.Assume = map[string]bool{"(" + k + "==nil)": false}
+		ex.From = call
+		ex.Target = func(in ssa.Instruction, st *eng.State) bool { return ex.IsSuccessReturn(in, st) }
+		ex.StopAtTarget = true
+		bad += len(ex.Run())
+	}
+	c.R.Check(bad == 0, rule, c.name(cl)+"/close-error-reported", c.P.Pos(cl.Pos()), "a failed close of the file is returned", "a failed close of the destination file is not reported")
 }
